@@ -61,6 +61,12 @@ def for_property(prop: str):
     mods["aiortc.rtcrtpsender"] = Profile(snd, rewrite={"join", "containers"})
     ratep = {"int": shims.sx_int, "min": shims.sx_min, "max": shims.sx_max, "dict": sx_dict, "range": shims.sx_range}
     mods["aiortc.rate"] = Profile(ratep, rewrite={"containers"})
+    if prop == "C09":
+        from sx.regex import re_shim
+
+        sdpn = {"str": shims.sx_str, "int": shims.sx_int, "re": re_shim, "dict": sx_dict}
+        mods["aiortc.sdp"] = Profile(sdpn, rewrite={"join", "fstr", "containers"})
+        mods["aiortc.rtcrtpparameters"] = Profile({"str": shims.sx_str}, rewrite={"fstr", "join"})
     if prop == "C03":
         pcp = {"int": shims.sx_int, "dict": sx_dict, "set": sx_set}
         mods["aiortc.rtcpeerconnection"] = Profile(pcp, rewrite={"containers"})
